@@ -496,13 +496,17 @@ impl World {
             if let Some(d) = diff_scans(&pre_scan, &post_scan) {
                 let bank = pre_scan.iter().filter(|(k, _)| k.starts_with(b"\x00\x04bank")).ne(post_scan.iter().filter(|(k, _)| k.starts_with(b"\x00\x04bank")));
                 let mut owners = vec!["C01"];
-                let _ = bank;
                 // "otherwise the failure propagates and the parent fails as a whole" (C02): the failure
                 // came from a sub-message or a reply, below an entry point that itself returned Ok
                 let entered = pred.trace.iter().filter(|e| e.kind != puppet::Kind::Query).count();
                 let single_root = !matches!(&call, Call::Multi(_, msgs, _) if msgs.len() > 1);
                 if pred.whys.iter().any(|(_, w)| matches!(w, model::Why::AfterUncaught)) || (single_root && entered >= 2 && pred.failures >= 1 && !pred.ok) {
                     owners.push("C02");
+                }
+                // "any funds attached ... are returned if the call fails" (C05): bank balances differ
+                // after a failed call in whose tree funds were attached somewhere
+                if bank && act.trace.iter().any(|e| !e.funds.is_empty()) {
+                    owners.push("C05");
                 }
                 discs.push(Disc { owners, sig: "atomicity:failed-call-changed-state".into(), msg: format!("the call returned Err but chain storage changed: {}", d), model_free: true });
             }
@@ -772,6 +776,21 @@ impl TreeCheck {
                             w.ever = pre_ever.clone();
                         }
                         let mut out = w.run_variant(tx, faults);
+                        // model-free: a failed call leaves NOTHING behind, so repeating it from the restored
+                        // store must go exactly the same way (same result, same invocations, same storage).
+                        // A difference means the first attempt left state outside the store.
+                        if id == "C01" && out.actual.starts_with("ok=false panic=None") && out.discs.iter().all(|d| !d.model_free) {
+                            let first = out.actual.clone();
+                            restore(w.app.storage_mut(), &pre_real);
+                            w.st = pre_model.clone();
+                            w.ever = pre_ever.clone();
+                            let again = w.run_variant(tx, faults);
+                            if again.actual != first {
+                                let cut = |s: &str| s.chars().take(500).collect::<String>();
+                                out.discs.insert(0, Disc { owners: vec!["C01"], sig: "atomicity:failed-call-left-hidden-state".into(), msg: format!("the call returned Err and root storage was unchanged, yet repeating the same call from the same store went differently: first {} | again {}", cut(&first), cut(&again.actual)), model_free: true });
+                            }
+                            cx.label("calls:failed-call-repeated");
+                        }
                         // A discrepancy in a multi-message call that does not show when the same messages
                         // are executed one by one (App::execute) from the same pre-state is specific to
                         // execute_multi (order / arity / sharing of one cache) and belongs to C01 alone.
@@ -1111,7 +1130,7 @@ fn kind_name(k: &TxKind) -> &'static str {
 }
 
 const RULES: &[(&str, &str, &str)] = &[
-    ("C01", "fault_enumeration", "generated histories (setup + 3-14 calls: execute / execute_multi with 0-4 messages / wasm_sudo / sudo / Executor helpers / block updates / code stores) whose calls are roots of generated message trees (depth<=4/6, <=14/40 nodes: contract calls, instantiate(2), migrate, admin changes, bank send/burn, custom-module calls, every reply_on mode); every call is run once per reached failure site with that site flipped (plus two multi-site sets) from the identical pre-state, then as scripted. Oracle: Err/panic => root storage byte-identical; Ok => trace, responses and full observable state equal the reference interpreter; execute_multi order/arity. Non-trivial call: a failing tree that entered >=2 contract calls, or execute_multi with >=2 messages, or a failing sudo; distinct = distinct serialised history"),
+    ("C01", "fault_enumeration", "generated histories (setup + 3-14 calls: execute / execute_multi with 0-4 messages / wasm_sudo / sudo / Executor helpers / block updates / code stores) whose calls are roots of generated message trees (depth<=4/6, <=14/40 nodes: contract calls, instantiate(2), migrate, admin changes, bank send/burn, custom-module calls, every reply_on mode); every call is run once per reached failure site with that site flipped (plus two multi-site sets) from the identical pre-state, then as scripted. Oracle: Err/panic => root storage byte-identical and the same call repeated from the restored store goes the same way; Ok => trace, responses and full observable state equal the reference interpreter; execute_multi order/arity. Non-trivial call: a failing tree that entered >=2 contract calls, or execute_multi with >=2 messages, or a failing sudo; distinct = distinct serialised history"),
     ("C02", "fault_enumeration", "same generator biased to failures and catching modes; every call run once per reached failure site (flipped) plus as scripted; oracle: Ok/Err, invocation trace (incl. rolled-back calls and each node's full storage scan at entry) and post-state equal the reference interpreter whose rollback is clone/restore. Non-trivial call: a failure caught by reply below >=3 entered calls; distinct = distinct serialised history"),
     ("C03", "exploration", "same generator biased to replying modes, ids from {0,1,small,u64::MAX,random} with duplicates, payloads 2-258 bytes; oracle: the reply entries of the complete out-of-band trace (position, contract, id, payload, ok/err, carried events/data) equal the reference. Non-trivial call: >=2 replies in a trace of >=4 entries; distinct = distinct serialised history"),
     ("C04", "exploration", "same generator with attributes/events/data on most nodes; oracle: AppResponse events and data of every successful call (and the events/data inside every Reply) equal the reference composition. Non-trivial call: successful tree of depth>=1 with >=1 reply; distinct = distinct serialised history"),
